@@ -24,7 +24,11 @@ CFG = ("ignore:\n  - \"lib/generated/\"\n  - \"src/gen_*.py\"\n"      # root-anc
        "print-statements:\n  ignore: [\"tests/\", \"build/\", \"examples/\", \"fixtures\"]\n"
        "pipeline:\n  ignore: [\"tests/\", \"build/\", \"examples/\", \"fixtures\"]\n"
        "file-header:\n  ignore: [\"tests/\", \"build/\", \"examples/\", \"fixtures\"]\n"
-       "dry:\n  enabled: true\n  min_duplicate_lines: 4\n"
+       "srp:\n  ignore: [\"tests/\", \"build/\", \"examples/\", \"fixtures\"]\n"
+       "cqs:\n  ignore_patterns: [\"*/tests/*\", \"*/build/*\", \"*/examples/*\", \"*/fixtures/*\", \"lib/helpers/*\"]\n"
+       # (lists that name directories of the project itself, from its root)
+       "lazy-ignores:\n  ignore_patterns: [\"src/web/**\", \"lib/*\"]\n"
+       "dry:\n  enabled: true\n  min_duplicate_lines: 4\n  ignore: [\"tests/\", \"build/\", \"examples/\", \"fixtures\"]\n"
        "file-placement:\n  directories:\n    src:\n      allow:\n        - \".*\\\\.py$\"\n    lib/helpers:\n      deny:\n        - pattern: \".*\\\\.ts$\"\n          reason: \"no ts here\"\n")
 
 
@@ -44,7 +48,13 @@ def project_files():
     fill = {f"src/fill/f{i:02d}.py": f"def fill_{i}(a):\n    return a + {7100 + i}\n" for i in range(18)}
     ignored = {"lib/generated/g.py": "def generated(a):\n    return a + 9901\n", "src/gen_tables.py": "def table(a):\n    return a + 9902\n",
                "src/web/gen_not_ignored.py": "def kept(a):\n    return a + 9903\n"}
-    return {**sup, **fill, **ignored, "src/a.py": py + "\n\n" + dup % "a", "src/web/b.ts": ts, "src/core/c.rs": rs, "lib/d.py": "def g():\n    return 777\n\n\n" + dup % "d",
+    lazy = {"src/lazy_a.py": "import os  # noqa\n", "src/web/lazy_b.py": "import sys  # noqa\n", "lib/lazy_c.py": "import json  # noqa\n"}
+    # the same set of strings tested in two files (stringly-typed; its built-in ignore list names test directories), and a
+    # function that both changes and answers (cqs)
+    strs = {f"src/modes_{t}.py": f"def mode_{t}(kind):\n    if kind in (\"alpha\", \"beta\", \"gamma\"):\n        return 1\n    return 0\n" for t in ("one", "two")}
+    cqs = {"lib/helpers/mixed.py": "def refresh(store, key):\n    value = store.load(key)\n    store.save(key, value)\n    return value\n",
+           "src/mixed2.py": "def renew(store, key):\n    value = store.load(key)\n    store.save(key, value)\n    return value\n"}
+    return {**sup, **fill, **ignored, **lazy, **strs, **cqs, "src/a.py": py + "\n\n" + dup % "a", "src/web/b.ts": ts, "src/core/c.rs": rs, "lib/d.py": "def g():\n    return 777\n\n\n" + dup % "d",
             "lib/helpers/e.ts": "function h() {\n  return 888;\n}\n", ".thailint.yaml": CFG}
 
 
@@ -60,7 +70,21 @@ def parents(tier):
 
 def commands():
     from src.cli_main import cli
-    return sorted(c for c in cli.commands if c not in ("config", "hello", "init-config"))
+    # `lib:cqs`: the command-query rule has no command of its own; it is run through the library (src.api.Linter)
+    return sorted(c for c in cli.commands if c not in ("config", "hello", "init-config")) + ["lib:cqs"]
+
+
+def run_library(rule, proj, cwd, target):
+    """the rule through src.api.Linter, from `cwd`, on the target as spelled; same shape as the CLI's JSON"""
+    from src.api import Linter
+    old = os.getcwd()
+    os.chdir(cwd)
+    try:
+        core._reset_singletons()  # noqa: SLF001
+        vs = Linter(project_root=proj).lint(target, rules=[rule])
+        return [{"file_path": str(v.file_path), "rule_id": v.rule_id, "line": v.line, "column": v.column, "message": v.message} for v in vs]
+    finally:
+        os.chdir(old)
 
 
 def norm(vs, proj: Path):
@@ -109,8 +133,13 @@ def impl_case(args) -> dict:
             for label, cwd, target, pre, post in spellings:
                 if post and c in ("file-placement",):
                     continue     # no --parallel option on this command
-                code, stdout = core.run_cli(pre + [c, "--format", "json"] + post + [target], cwd=cwd)
-                vs = core.violations_json(stdout)
+                if c.startswith("lib:"):
+                    if pre or post:
+                        continue
+                    code, stdout, vs = 0, "", run_library(c[4:], proj, cwd, target)
+                else:
+                    code, stdout = core.run_cli(pre + [c, "--format", "json"] + post + [target], cwd=cwd)
+                    vs = core.violations_json(stdout)
                 if vs is None:
                     out["runs"].append({"cmd": c, "spelling": label, "exit": code, "vs": None, "raw": stdout[:200]})
                     continue
